@@ -207,7 +207,7 @@ def elements(mode, params):
 
 def enumerate_cases(tier, seed):
     thorough = tier == "thorough"
-    pks = PKS if thorough else ("mem", "both")
+    pks = PKS if thorough else ("mem", "both", "lst")   # quick: "lst" only for the list-valued sweep
     priors = PRIORS if thorough else ("fresh", "both")
     ros = READOUTS if thorough else ("1", "2nd")
     cases = []
@@ -219,6 +219,8 @@ def enumerate_cases(tier, seed):
                         continue                    # the swept times replace the readout: one base readout is enough
                     if space == "seqlst" and pk not in ("lst", "both"):
                         continue                    # only these pipelines have the list argument
+                    if not thorough and pk == "lst" and space != "seqlst":
+                        continue                    # (configured list shorter than the swept lists)
                     for ex in ("seq", "dask"):
                         for var in variants(space):
                             cases.append({"part": "obs", "pk": pk, "prior": prior, "ro": ro, "space": space, "exec": ex,
@@ -240,7 +242,7 @@ def expected_size(tier, seed):
     nvar = 15 + 3 * 4
     if tier == "thorough":
         return 4 * 4 * 3 * 2 * (nvar + 4) + 2 * 4 * 3 * 2 * 4 + 4 * 4 * 1 * 2 * 2 + 4 * 4 * 6 + 16 + 16
-    return 2 * 2 * 2 * 2 * (nvar + 4) + 1 * 2 * 2 * 2 * 4 + 2 * 2 * 1 * 2 * 2 + 4 * 2 * 6 + 1 + 4
+    return 2 * 2 * 2 * 2 * (nvar + 4) + 2 * 2 * 2 * 2 * 4 + 2 * 2 * 1 * 2 * 2 + 4 * 2 * 6 + 1 + 4
 
 
 # ---------------------------------------------------------------- the check
